@@ -42,6 +42,9 @@ def make_classifier(prop: str):
     from . import finding_predicates  # noqa: F401  (registers predicates)
 
     fs = open_findings(prop)
+    missing = [f["predicate"] for f in load() if f.get("status") == "open" and f["predicate"] not in PREDICATES]
+    if missing:
+        raise SystemExit(f"INCONCLUSIVE reason=known_findings.json names predicates that do not exist: {missing}")
     if not fs:
         return None
 
